@@ -445,7 +445,7 @@ def binary_rule(neighbourhood, rule, scheme=None, powers_of_two=None):
         state_int = bits_to_int(neighbourhood)
     else:
         assert len(powers_of_two) == len(neighbourhood)
-        state_int = neighbourhood.dot(powers_of_two)
+        state_int = int(neighbourhood.dot(powers_of_two))
     n = 2 ** len(neighbourhood)
     if isinstance(rule, (list, np.ndarray)):
         assert len(rule) == n
